@@ -198,12 +198,12 @@ K = {"T1": ["T1", False], "T2": ["T2", False], "T3": ["T3", False], "T1u": ["T1"
 
 
 def lines_gen(L, D, E, kinds, unit="  ", base=0, free=(), ws=(), blank=True, suffix="", simulate=None, code_a="", code_b="",
-              mb=False, max_code=99, empty_default=False, pairs=False, preamble=0, inline=False, pair_kind="R", eol="\n", tag_sep=" ", flag_val="", quote="'", flags_first=False, tail=False, pad="", wide=False, free_tags=True, tail_kinds=None, crossing=False, free_code=True, extra_attr=""):
+              mb=False, max_code=99, empty_default=False, pairs=False, preamble=0, inline=False, pair_kind="R", eol="\n", tag_sep=" ", flag_val="", quote="'", flags_first=False, tail=False, pad="", wide=False, free_tags=True, tail_kinds=None, crossing=False, free_code=True, extra_attr="", eq_pad=("", "")):
     from vlib import TlaSet
     g = {"base": "GenLines", "constraint": "Feasible",
          "consts": {"L": L, "D": D, "E": E, "Kinds": TlaSet([K[k] for k in kinds]), "Unit": Chars(unit), "Base": base,
                     "FreeInd": TlaSet(list(free)), "FreeTags": free_tags, "FreeCode": free_code, "WsLens": TlaSet(list(ws)), "Blank": blank, "Suffix": Chars(suffix), "CodeA": Chars(code_a), "CodeB": Chars(code_b), "MbCode": mb, "MaxCode": max_code, "EmptyDefault": empty_default, "PairLines": pairs, "Preamble": preamble,
-                    "InlineTags": inline, "PairKind": K[pair_kind], "EOL": Chars(eol), "TagSep": Chars(tag_sep), "FlagVal": Chars(flag_val), "QuoteCh": ord(quote), "FlagsFirst": flags_first, "Crossing": crossing, "TailElems": tail, "TailKinds": TlaSet([K[k] for k in (tail_kinds or kinds)]), "TagPad": Chars(pad), "ExtraAttr": Chars(extra_attr), "WideCode": wide,
+                    "InlineTags": inline, "PairKind": K[pair_kind], "EOL": Chars(eol), "TagSep": Chars(tag_sep), "FlagVal": Chars(flag_val), "QuoteCh": ord(quote), "FlagsFirst": flags_first, "Crossing": crossing, "TailElems": tail, "TailKinds": TlaSet([K[k] for k in (tail_kinds or kinds)]), "TagPad": Chars(pad), "ExtraAttr": Chars(extra_attr), "EqPad": [Chars(eq_pad[0]), Chars(eq_pad[1])], "WideCode": wide,
                     "PastTo": Chars(PAST), "FutureTo": Chars(FUTURE),
                     "Tos": [Chars(t) for t in TOS], "Names": [Chars(n) for n in MNAMES]}}
     if simulate:
@@ -233,7 +233,8 @@ def kitchen_sink(ctx, kinds, L, n):
                      suffix=["", "é", "あ"][sd % 3], tag_sep=[" ", "\n     "][(sd // 2) % 2], inline=True, pairs=True,
                      code_b=["", " = 1"][(sd // 3) % 2], flag_val=["", "='1'", '="true"'][(sd // 2) % 3], quote=["'", '"'][(sd + 1) % 2],
                      flags_first=(sd % 3 == 1), tail=True, pad=["", " "][(sd // 3) % 2],
-                     extra_attr=["", " skipper", " Skip", " xunwrap-block", " names='a'", " unwrap-blocks"][sd % 6], simulate=(n, L))
+                     extra_attr=["", " skipper", " Skip", " xunwrap-block", " names='a'", " unwrap-blocks"][sd % 6],
+                     eq_pad=[("", ""), (" ", " "), ("", " "), (" ", "")][(sd // 2) % 4], simulate=(n, L))
 
 
 def block_jobs(ctx, invariants, ops, lite=False):
@@ -258,6 +259,8 @@ def block_jobs(ctx, invariants, ops, lite=False):
                 lines_gen(4, 2, 2, ["R", "P"], blank=True, tail=True, max_code=2),                      # elements behind code on one line
                 lines_gen(5, 1, 1, ["R"], blank=True, wide=True, max_code=2),                           # lines of wide blanks (U+3000, NBSP) only
                 lines_gen(4, 2, 2, ["R", "UX", "UP", "XR", "XT"], blank=False, max_code=1),                # near-miss tag names, the other evaluator's attribute
+                lines_gen(4, 2, 2, ["R", "P", "T"], blank=False, eq_pad=(" ", " ")),                       # name = 'a'
+                lines_gen(4, 1, 1, ["R", "T", "S"], blank=False, eq_pad=("  ", ""), quote='"'),
                 lines_gen(4, 1, 1, ["R", "P", "T"], blank=False, extra_attr=" skipper"),
                 lines_gen(4, 1, 1, ["R", "T"], blank=False, extra_attr=" Skip"),
                 lines_gen(4, 1, 1, ["R", "P"], blank=False, extra_attr=" names='b' to2='x'"),
@@ -278,6 +281,7 @@ def block_jobs(ctx, invariants, ops, lite=False):
         ("block-sim", [lines_gen(14, 3, 5, ["R", "P", "S", "SP", "SF", "U", "T", "F"], ws=(2,), base=ctx.seed % 2, simulate=(1500, 14)),
                        kitchen_sink(ctx, ["R", "P", "S", "U", "T", "F"], 14, 600)]),
         ("block-html", [dict(lines_gen(7, 2, 2, ["R", "P", "T"], ws=(2,)), cfg=html)]),
+        ("block-eq-blanks", [lines_gen(6, 2, 2, ["R", "P", "T", "Ru"], blank=False, eq_pad=(" ", " ")), lines_gen(6, 2, 2, ["R", "T"], eq_pad=("  ", ""), quote='"')]),
         ("block-near-misses", [lines_gen(6, 2, 2, ["R", "UX", "UP", "XR", "XT"], blank=False, max_code=2),
                                lines_gen(6, 2, 2, ["R", "P", "T"], blank=False, extra_attr=" skipper"), lines_gen(6, 2, 2, ["R", "T"], extra_attr=" Skip"),
                                lines_gen(6, 2, 2, ["Ru", "R"], blank=False, extra_attr=" xunwrap-block unwrap-blocks")]),
@@ -322,6 +326,9 @@ def unwrap_jobs(ctx, invariants, ops, lite=False):
                 lines_gen(6, 2, 2, ["Ru", "Tu", "P"], free=(1,), blank=False, quote='"', flags_first=True),   # flags first, double quotes
                 lines_gen(6, 2, 2, ["Ru", "R"], blank=False, tail=True, max_code=2),
                 lines_gen(6, 2, 2, ["Ru", "P"], blank=False, pad=" "),
+                lines_gen(6, 1, 1, ["Ru", "Tu"], free=(1,), blank=False, eq_pad=("", " ")),
+                lines_gen(6, 1, 1, ["Ru"], free=(0, 2), blank=False, wide=True),                          # inner lines beginning with a wide blank
+                lines_gen(7, 2, 2, ["Ru"], blank=False, wide=True, max_code=4),
                 lines_gen(6, 1, 1, ["Ru", "R"], free=(1,), blank=False, extra_attr=" xunwrap-block"),
                 lines_gen(6, 1, 1, ["R", "UXu"], free=(1,), blank=False, extra_attr=" unwrap-blocks UNWRAP-BLOCK"),
                 dict(lines_gen(10, 2, 2, ["Ru"], blank=False, free=(0,), free_code=False, max_code=6), constraint="FeasibleU"),   # nested blocks, tags in the same column
@@ -348,6 +355,7 @@ def unwrap_jobs(ctx, invariants, ops, lite=False):
         ("unwrap-tail-elements", [lines_gen(8, 2, 2, ["Ru", "R", "P"], blank=False, tail=True, max_code=3),
                                   lines_gen(7, 1, 3, ["Ru", "R"], blank=False, tail=True, free=(2,), free_tags=False, max_code=3),
                                   lines_gen(7, 2, 2, ["Ru", "P"], blank=False, pad=" ")]),
+        ("unwrap-wide-blanks", [lines_gen(8, 1, 1, ["Ru"], free=(0, 1, 2), blank=False, wide=True), lines_gen(9, 2, 2, ["Ru"], blank=False, wide=True, max_code=5)]),
         ("unwrap-flags", [lines_gen(8, 2, 2, ["Ru", "Su", "Pu"], free=(1,), blank=False),
                           lines_gen(8, 1, 1, ["Ru"], free=(0, 1, 2), blank=False, flag_val='="true"'),
                           lines_gen(8, 2, 2, ["Ru", "Su", "R"], free=(1,), blank=False, flag_val="='1'"),
@@ -711,8 +719,8 @@ def check_C06(ctx):
                 nontrivial=ready_toggle)
     # the command line with and without target options (defaults must contribute no targets)
     doc = "".join("<!-- <removal-marker name='%s'> -->\nx%d\n<!-- </removal-marker> -->\n" % (t, i)
-                  for i, t in enumerate(["vec![]", "a", "", "feature1", "+00:00", "removal-marker"]))
-    ctx.job("targets-cli", gens=[{"base": "GenCli", "consts": {"Docs": [Chars(doc)], "TargetPool": [Chars("a"), Chars("feature1")],
+                  for i, t in enumerate(["vec![]", "a", "", "feature1", "+00:00", "removal-marker", "b ", "b", " c", "c"]))
+    ctx.job("targets-cli", gens=[{"base": "GenCli", "consts": {"Docs": [Chars(doc)], "TargetPool": [Chars("a"), Chars("b "), Chars(" c"), Chars("feature1")],
                                                                "Zones": ["UTC"], "Langs": [""], "OmitAll": True, "Part": "stdout", "Currents": TlaSet(["given"])}}],
             invariants=["Inv_C06"], ops=[], cli=True,
             cfg={"ds": "<!-- <", "de": "> -->", "tl": "time-limited", "rm": "removal-marker", "off": "+00:00", "targets": []},
@@ -768,12 +776,18 @@ def has_pair(b):
 
 def check_C10(ctx):
     q = ctx.quick
-    ctx.mc("tree", "MC_Tree", {"NamesPool": [Chars(x) for x in ["a", "b", "/a", "/b", "/x"]], "N": 6 if q else 8}, ["ImplRefines"])
+    ctx.mc("tree", "MC_Tree", {"NamesPool": [Chars(x) for x in ["a", "ab", "/a", "/ab", "/x"]], "N": 6 if q else 8}, ["ImplRefines"])
     for (ds, de) in [("<", ">")] + ([] if q else [("<!-- <", "> -->")]):
         atoms = [ds + "a" + de, ds + "b" + de, ds + "/a" + de, ds + "/b" + de, ds + "/x" + de, "t"]
         ctx.job("tokens[%s|%s]" % (ds, de),
                 gens=[{"base": "GenAtoms", "consts": {"Atoms": [Chars(a) for a in atoms], "N": 6 if q else 8}}],
                 invariants=["Inv_C10"], ops=[{"op": "tree"}], cfg={"ds": ds, "de": de}, nontrivial=has_pair)
+    # names one of which is a suffix / prefix of the other
+    for (n1, n2) in [("b", "ab"), ("a", "ab")]:
+        atoms = ["<%s>" % n1, "<%s>" % n2, "</%s>" % n1, "</%s>" % n2, "t"]
+        ctx.job("tokens-names[%s,%s]" % (n1, n2),
+                gens=[{"base": "GenAtoms", "consts": {"Atoms": [Chars(a) for a in atoms], "N": 5 if q else 7}}],
+                invariants=["Inv_C10"], ops=[{"op": "tree"}], cfg={"ds": "<", "de": ">"}, nontrivial=has_pair)
     atoms = ["<a x='1'>", "<a>", "</a>", "<b skip>", "</b>", "</a >", "< a>", "<>", "t", "\n"]
     ctx.job("tokens-attrs", gens=[{"base": "GenAtoms", "consts": {"Atoms": [Chars(a) for a in atoms], "N": 5 if q else 6}}],
             invariants=["Inv_C10"], ops=[{"op": "tree"}], cfg={"ds": "<", "de": ">"}, nontrivial=has_pair)
@@ -891,7 +905,8 @@ CLI_DOCS_DEFAULT = [
     "<!-- <removal-marker name='a'> -->\n  ra\n<!-- </removal-marker> -->\n"
     "<!-- <removal-marker name='feature1' unwrap-block> -->\nif (f) {\n  keep();\n}\n<!-- </removal-marker> -->\n"
     "<!-- <removal-marker name='vec![]'> -->\nrv\n<!-- </removal-marker> -->\n"
-    "<!-- <removal-marker name=''> -->\nempty name\n<!-- </removal-marker> -->\nz\n",
+    "<!-- <removal-marker name=''> -->\nempty name\n<!-- </removal-marker> -->\n"
+    "<!-- <removal-marker name='x,y'> -->\ncomma\n<!-- </removal-marker> -->\n<!-- <removal-marker name='y'> -->\nhalf\n<!-- </removal-marker> -->\nz\n",
     "日本語\n<!-- <time-limited to='2999-01-01 00:00:00'> -->\n\tnew é\n<!-- </time-limited> -->\nend",
     "",
 ]
@@ -929,7 +944,7 @@ def check_C20(ctx):
         zones = [zones[ctx.seed % 4], zones[(ctx.seed + 1) % 4]]
     langs = [""] if q else ["", "C", "en_US.UTF-8", "ja_JP.UTF-8"]
     ctx.job("cli-defaults", gens=[{"base": "GenCli", "consts": {"Docs": [Chars(d) for d in (CLI_DOCS_DEFAULT[:4] if q else CLI_DOCS_DEFAULT)],
-                                                                "TargetPool": [Chars(""), Chars("a"), Chars("feature1"), Chars("x y")],
+                                                                "TargetPool": [Chars(""), Chars("a"), Chars("feature1"), Chars("x,y"), Chars("x y")],
                                                                 "Zones": zones, "Langs": langs, "OmitAll": True, "Part": "all", "Currents": TlaSet(["given"])}}],
             invariants=["Inv_C20"], ops=[], cli=True,
             cfg={"ds": "<!-- <", "de": "> -->", "tl": "time-limited", "rm": "removal-marker", "off": "+00:00",
